@@ -45,10 +45,11 @@ def run(ctx, config='rel-all'):
         if r.ret is None:
             continue
         fn = arena.short(b['id'])
+        scalar_out = (m.get('output') or '').strip() in ('usize', 'isize', 'bool', '()', 'u8', 'u16', 'u32', 'u64', 'u128', 'i8', 'i16', 'i32', 'i64', 'i128', 'char', 'f32', 'f64')
         for i in byval:
             flows = ('param', i) in subterms(r.ret)
-            if not flows:
-                continue
+            if not flows or scalar_out:
+                continue        # a number computed from the argument's fields carries none of its elements
             handoffs += 1
             drops = []
             for bi in sorted(g.reachable):
@@ -189,6 +190,13 @@ def check_drain_exhaust(ctx, db):
             ga = ' '.join(t['callee'].get('gargs') or [])
             if tp.endswith('Iterator::for_each') and 'Drain' in ga:
                 exhaust.append(bi)
+            elif (tp.endswith('Iterator::next') or p.endswith('Iterator>::next')) and ('Drain' in ga or 'vec::Drain<' in p) and t.get('t') is not None:
+                # an exhaust loop: left only through the test of next()'s result; what follows the loop is dominated by its header
+                for h, blks in g.loops().items():
+                    if bi in blks:
+                        exits = {u for u in blks for v in g.succ[u] if v not in blks}
+                        if exits and exits <= {t['t']} and b['blocks'][t['t']]['term']['k'] == 'switch':
+                            exhaust.append(bi)
             if p.endswith('Drain::<\'a, \'bump, T>::fill') or p.endswith('::move_tail') or (tp.endswith('Extend::extend') and 'Vec' in ga):
                 writers.append((bi, t))
         def exhausted_before_every_call(body, depth=0):
